@@ -46,3 +46,14 @@ Proof.
       apply eqb_spec in E; subst; vm_compute; reflexivity.
   - eexists; split; vm_compute; reflexivity.
 Qed.
+
+(* ---- tie to the code (utils/url.py parse_url): the statements of coq/Equiv/EquivUrl.v, re-checked here against the definitions regenerated
+   from /repo's working tree (coq/Gen); see DESIGN.md 11.8 ---- *)
+From Coq Require Import List NArith ZArith Bool.
+From NV Require Import Prelude.Str Prelude.Res Prelude.Utf8 Model.Url Model.Titan Equiv.UrlGlue Gen.UrlGen.
+From NV Require Equiv.EquivUrl.
+Theorem C19_code_parse_url_tie : forall ip6 u,
+  gen_parse_url (urlparse ip6) u = res_map purl_of_parsed (parse_url ip6 u).
+Proof. exact EquivUrl.parse_url_tie. Qed.
+Print Assumptions C19_code_parse_url_tie.
+
